@@ -69,6 +69,7 @@ type workerResult struct {
 	Digests    []string       `json:"digests,omitempty"`
 	Meta       *propMeta      `json:"meta,omitempty"`
 	Races      []raceReport   `json:"races,omitempty"`
+	ResumeAt   int            `json:"resume_at,omitempty"`
 }
 
 type raceReport struct {
@@ -343,9 +344,14 @@ func runWorkers(bin, id, tier string, seed int64, runs, wall, nw int, work, repl
 			// GOMAXPROCS=1): the run is abandoned, recorded, and the worker resumes
 			// behind it. A mutex wait in the dump is left to a human (exit 2).
 			start := 0
-			for attempt := 0; attempt < 4; attempt++ {
+			until := time.Now().Add(time.Duration(wall) * time.Second)
+			for attempt := 0; attempt < 4; {
+				left := int(time.Until(until).Seconds())
+				if left < 1 {
+					left = 1
+				}
 				cmd := exec.Command(bin, "-test.run", "^TestWorker$", "-test.timeout", "0", "-test.cpu", "1")
-				cmd.Env = append(append([]string{}, env...), fmt.Sprintf("VERIF_START=%d", start))
+				cmd.Env = append(append([]string{}, env...), fmt.Sprintf("VERIF_START=%d", start), fmt.Sprintf("VERIF_WALL=%d", left))
 				var eb bytes.Buffer
 				cmd.Stderr = &eb
 				cmd.Stdout = &eb
@@ -357,8 +363,16 @@ func runWorkers(bin, id, tier string, seed int64, runs, wall, nw int, work, repl
 				if rerr == nil && json.Unmarshal(b, &wr) == nil {
 					mergeWorker(&results[i], &wr)
 					stats[i].ok = true
+					if wr.ResumeAt > 0 && time.Now().Before(until) {
+						// the process ended itself to give its memory back: go on in a fresh one
+						start = wr.ResumeAt
+						os.Remove(out)
+						stats[i].ok = false
+						continue
+					}
 					break
 				}
+				attempt++
 				se := eb.String()
 				if !strings.Contains(se, "WATCHDOG:") || strings.Contains(se, "[sync.Mutex.Lock") || strings.Contains(se, "[sync.RWMutex") {
 					break
